@@ -5,6 +5,7 @@ import (
 	//"encoding/hex"
 	"fmt"
 	"math/bits"
+	"strconv"
 
 	"Havoc/pkg/agent"
 	"Havoc/pkg/common/packer"
@@ -272,6 +273,13 @@ func handleDemonAgent(Teamserver agent.TeamServer, Header agent.Header, External
 
 			Agent = agent.ParseDemonRegisterRequest(Header.AgentID, Header.Data, ExternalIP)
 			if Agent == nil {
+				return Response, false
+			}
+
+			/* the header id may be 0, in which case the id inside the register data is used:
+			 * never register an id that already has a session */
+			if id, err := strconv.ParseUint(Agent.NameID, 16, 32); err == nil && Teamserver.AgentExist(int(id)) {
+				logger.Debug("Agent " + Agent.NameID + " is already registered. bye...")
 				return Response, false
 			}
 
